@@ -137,6 +137,9 @@ pub fn keeping() -> bool {
 }
 
 pub fn count_op() {
+    if muted() {
+        return;
+    }
     LOG.with(|l| l.borrow_mut().ops += 1);
 }
 
